@@ -7,6 +7,18 @@ import re
 VERIF = os.path.dirname(os.path.dirname(os.path.abspath(__file__)))
 
 
+def shorten(items, limit=900):
+    out = []
+    n = 0
+    for it in items:
+        if n + len(it) + 2 > limit:
+            out.append("…")
+            break
+        out.append(it)
+        n += len(it) + 2
+    return ", ".join(out)
+
+
 def main():
     rows = []
     n = miss = 0
@@ -35,7 +47,7 @@ def main():
         e = json.load(open(f))
         ri = e["coverage"].get("rule_instances", {})
         items = ["%s×%d" % (k, v) for k, v in ri.items() if not k.startswith("floor:") and k not in ("functions_analysed",) and isinstance(v, int)]
-        lines.append("| %s | %s | %d | %s |" % (e["property_id"], e["level"], e["coverage"]["obligations"], ", ".join(items)[:900]))
+        lines.append("| %s | %s | %d | %s |" % (e["property_id"], e["level"], e["coverage"]["obligations"], shorten(items)))
     inv = "\n".join(lines) + "\n"
     if "<!-- RULES:BEGIN -->" in s:
         s = re.sub(r"<!-- RULES:BEGIN -->.*<!-- RULES:END -->", "<!-- RULES:BEGIN -->" + inv.replace("\\", "\\\\") + "<!-- RULES:END -->", s, flags=re.S)
